@@ -435,6 +435,22 @@ let judge_listener ins outs : verdict =
 
 (* ------------------------------ I ---------------------------------- *)
 
+(* microseconds of Sleep/Latency that happen BEFORE the last delivered byte: a
+   delay after the last byte (action exactly at the end of the body) is not
+   visible to a client that stops the clock when the response is complete *)
+let delays_before_last_byte (evs : ev list) : int =
+  let rec go acc pending = function
+    | [] -> acc
+    | (Sleep d | Latency d) :: r -> go acc (pending + 1000 * iz d) r
+    | Emit (_ :: _) :: r -> go (acc + pending) 0 r
+    | _ :: r -> go acc pending r in
+  go 0 0 evs
+
+(* several responses on one keep-alive connection: the model's context is set
+   per response with [respond] from whatever the previous response left, the
+   action counts of each shape are carried from response to response *)
+
+
 let kvs toks = List.filter_map (fun t -> match String.index_opt t ':' with
     | Some i -> Some (String.sub t 0 i, String.sub t (i + 1) (String.length t - i - 1)) | None -> None) toks
 
@@ -482,7 +498,7 @@ let judge_integration ins outs : verdict =
                             (match first_close sh.sh_acts rs' with Some k -> string_of_int (iz k) | None -> "-")));
            let (s, evs0) = open_ctx true sh.sh_acts sh.sh_thr true rs' (zi hl) (Some lat) O in
            let ((_, evs), r) = write (fun _ -> huge) s data in
-           let total = List.fold_left (fun a e -> match e with Sleep d | Latency d -> a + 1000 * iz d | _ -> a) 0 evs in
+           let total = delays_before_last_byte evs in
            let el = ios (tl1 (tl1 el)) in
            if el < total then
              raise (Fail ("halt_delay_total", Printf.sprintf "response took %dus, configured halts and latency add up to %dus" el total));
@@ -490,6 +506,97 @@ let judge_integration ins outs : verdict =
            VOk (List.exists is_action_ev (evs0 @ evs))
        | _ -> VOk false)
   | _ -> if List.mem "listen-failed" outs || List.mem "dial-failed" outs then VOk false else raise (Dis "integration-out-shape")
+
+
+(* ------------------------------ K ---------------------------------- *)
+
+let judge_keepalive ins outs : verdict =
+  if List.mem "PANIC" outs then raise (Fail ("no_panic", "the code under test panicked"));
+  let (cfgt, reqs) = split_bar ins in
+  let (code, rx, outs) = match outs with
+    | s :: r :: rest when starts "st" s && starts "rx" r -> (ios (String.sub s 2 (String.length s - 2)), tl1 (tl1 r), rest)
+    | _ -> if List.mem "listen-failed" outs then raise Exit else raise (Dis "keepalive-out-shape") in
+  if List.mem "dial-failed" outs then raise Exit;
+  let (cfgo, regtoks) = parse_cfg cfgt rx in
+  let validated = match cfgo with Some c -> validate c | None -> None in
+  (match validated, code with
+   | None, 200 -> raise (Fail ("validate_rejects", "invalid configuration accepted"))
+   | Some _, 200 | None, 400 -> ()
+   | _ -> raise (Dis "status"));
+  let active = match validated with Some shs -> build_map shs | None -> [] in
+  let lat = match cfgo, validated with Some { cf_defaults = Some ((_, _), l); _ }, Some _ -> l | _ -> Z0 in
+  let shared = ref (List.map (fun (k, sh) -> (k, sh.sh_acts)) active) in
+  let prev = ref (fst (open_ctx true [] [] false Z0 Z0 (Some lat) O)) in
+  let nresp = ref 0 and acted = ref false and dead = ref false in
+  let rec go reqs outs =
+    match reqs, outs with
+    | [], [m] ->
+        let want = pr_active active (fun k -> List.assoc_opt k !shared) in
+        if want <> m then raise (Dis ("final-actions want=" ^ want ^ " got=" ^ m))
+    | q :: reqs', "skip" :: outs' ->
+        if not !dead then raise (Dis "request-skipped-on-a-live-connection");
+        go reqs' outs'
+    | q :: reqs', _ :: _ :: _ :: "cut" :: _ :: _ :: "x" :: outs' when !dead ->
+        (* the proxy had closed the connection after the previous response *)
+        go reqs' outs'
+    | q :: reqs', m :: hs :: hl :: state :: el :: body :: got :: outs' ->
+        if !dead then raise (Dis "response-after-close");
+        let rs = match split ':' q with [_; _; rs; _; _] -> ios rs | _ -> raise (Dis "bad-q") in
+        let mbits = tl1 m in
+        let matching = List.sort_uniq compare
+            (List.filteri (fun i _ -> i < String.length mbits && mbits.[i] = '1') regtoks) in
+        let hl = ios (tl1 (tl1 hl)) in
+        let delivered = chars_of_hex got in
+        let body = chars_of_hex (tl1 body) in
+        let el = ios (tl1 (tl1 el)) in
+        incr nresp;
+        if hl < 0 then begin
+          (* nothing or not even a full head arrived: only legitimate when a close fires at once *)
+          if state <> "cut" then raise (Fail ("bytes_prefix", "no response head delivered"))
+        end;
+        let head = if hl >= 0 then List.filteri (fun i _ -> i < hl) delivered else delivered in
+        let data = head @ body in
+        let short = List.length delivered < List.length data in
+        if hl >= 0 && not (ok_prefix data delivered short) then
+          raise (Fail ("bytes_prefix", Printf.sprintf "response %d: written=%d delivered=%d: the client did not receive the written bytes"
+                         !nresp (List.length data) (List.length delivered)));
+        if hl >= 0 && ios (tl1 (tl1 hs)) <> (if rs >= 0 then 206 else 200) then raise (Dis "origin-status");
+        let rs' = zi (if rs >= 0 then rs else 0) in
+        (match matching with
+         | [] ->
+             if short || state = "cut" then
+               raise (Fail ("only_matching", Printf.sprintf "response %d matches no shape but was cut after %d of %d bytes" !nresp (List.length delivered) (List.length data)));
+             let (s, _) = respond !prev true [] [] false rs' (zi hl) in
+             let ((s', evs), _) = write (fun _ -> huge) s data in
+             if el < delays_before_last_byte evs then raise (Fail ("halt_delay_total", "latency not observed"));
+             prev := s'
+         | [rg] when hl >= 0 ->
+             let rgc = chars_of_hex rg in
+             let sh = List.assoc rgc active in
+             let acts = List.assoc rgc !shared in
+             if not (ok_close acts rs' (zi hl) data delivered short) then
+               raise (Fail ("close_at_k", Printf.sprintf "response %d: rs=%d hl=%d written=%d delivered=%d first_close=%s"
+                              !nresp rs hl (List.length data) (List.length delivered)
+                              (match first_close acts rs' with Some k -> string_of_int (iz k) | None -> "-")));
+             let (s, evs0) = respond !prev true acts sh.sh_thr true rs' (zi hl) in
+             let ((s', evs), r) = write (fun _ -> huge) s data in
+             let total = delays_before_last_byte evs in
+             if el < total then
+               raise (Fail ("halt_delay_total", Printf.sprintf "response %d took %dus, configured halts and latency add up to %dus" !nresp el total));
+             if emitted evs <> delivered then raise (Dis "delivered-bytes-differ-from-model");
+             let closed = (match r with RClosed _ -> true | _ -> false) in
+             (* a close exactly at the end of the body: complete response, then the proxy closes *)
+             if closed && not short then dead := true
+             else if closed <> (state = "cut") then raise (Dis (Printf.sprintf "connection-state want-closed=%b got=%s" closed state));
+             if List.exists is_action_ev (evs0 @ evs) then acted := true;
+             shared := (rgc, s'.acts) :: List.remove_assoc rgc !shared;
+             prev := s'
+         | _ -> raise Exit);
+        if state = "cut" then dead := true;
+        go reqs' outs'
+    | _ -> raise (Dis "keepalive-out-length") in
+  (try go reqs outs with Exit -> ());
+  VOk (!nresp >= 2 && !acted)
 
 (* ------------------------------ R ---------------------------------- *)
 
@@ -525,6 +632,7 @@ let judge _name ins outs =
     | "L" :: r -> judge_listener r outs
     | "I" :: r -> judge_integration r outs
     | "R" :: r -> judge_rate r outs
+    | "K" :: r -> (try judge_keepalive r outs with Exit -> VOk false)
     | _ -> VDisagree "unknown-case-kind"
   with
   | Fail (c, d) -> VPropfail (c, String.concat "_" (String.split_on_char ' ' d))
